@@ -29,6 +29,8 @@ META = {
     'design_ref': 'DESIGN.md §3 C06',
 }
 
+DECL_STYLE_IDS = {'constVariablePointer', 'constParameterPointer', 'constVariable', 'constParameter',
+                  'constVariableReference', 'constParameterReference', 'constParameterCallback'}
 OPTS = ['-q', '--enable=warning,style', '--platform=unix64', '--library=std']
 
 
@@ -44,6 +46,10 @@ def canon(fs, pair, shared_lines_only_cols):
         if any(n in text for n in pair.names):
             continue
         if pair.kind.startswith('macro') and f.severity not in ('error', 'warning'):
+            continue
+        if f.id in DECL_STYLE_IDS and pair.kind.startswith(('typedef', 'using')):
+            # "can be declared as pointer to const" is a suggestion about the *spelled* declaration; cppcheck
+            # deliberately does not make it when the pointer type comes from a typedef (checkConstPointer)
             continue
         locs = []
         for (_fl, l, c, info) in f.locs:
